@@ -627,6 +627,13 @@ fn c32(args: &Args, rep: &mut Reporter, table: &[Flow]) {
                 1 + frng.below(5)
             };
             let mut inputs = vec![gen_input(&mut frng, n, f.pair[0], 3, 5)];
+            if f.pair[0] && case % 2 == 1 {
+                // scattered key domain: hash-iteration order of the keys is no longer their numeric order
+                const SCATTER: [i64; 3] = [1_000_003, -7, 40];
+                for it in inputs[0].iter_mut() {
+                    it.0 = SCATTER[it.0 as usize];
+                }
+            }
             if f.n_in == 2 {
                 let nb = 1 + frng.below(3);
                 inputs.push(gen_input(&mut frng, nb, f.pair[1], 3, 5));
